@@ -2,7 +2,6 @@
 From Coq Require Import Lia ZifyN ZifyNat ZifyBool.
 From Aby Require Import Base Vu64 Consts Sizing Alloc AllocInv.
 
-Local Ltac Zify.zify_post_hook ::= Z.div_mod_to_equations.
 
 (** ** generic list / map helpers *)
 
